@@ -223,6 +223,8 @@ type c13Case struct {
 	Listener bool        `json:"listener"`
 	Manager  bool        `json:"manager"`
 	Epoch    uint64      `json:"epoch"`
+	LState   int         `json:"lstate"` // listener.state
+	SState   int         `json:"sstate"` // session.state
 	Streams  [][2]uint32 `json:"streams"`
 	Queue    []c13Q      `json:"queue"`
 	Bytes    string      `json:"bytes"`
@@ -232,6 +234,7 @@ type c13Case struct {
 	HsClass   string `json:"hs_class,omitempty"` // panic | err | ok
 	HsReplies string `json:"hs_replies,omitempty"`
 	MetaPanic bool   `json:"meta_panic,omitempty"`
+	MetaErr   bool   `json:"meta_err,omitempty"`
 	MetaQ     string `json:"meta_q,omitempty"`
 	MetaB     string `json:"meta_b,omitempty"`
 	Oracle    []c13Fail `json:"oracle"`
@@ -286,7 +289,7 @@ func (u *c13Subject) reset(c *c13Case) error {
 	atomic.StoreUint64(&s.stats.recvPollingEventCount, 0)
 	atomic.StoreUint64(&s.stats.fallbackReadCount, 0)
 	atomic.StoreUint32(&s.unhealthy, 0)
-	s.state = defaultState
+	s.state = sessionSateType(c.SState)
 	u.disp.take()
 	if u.listen != nil {
 		u.listen.mu.Lock()
@@ -296,7 +299,7 @@ func (u *c13Subject) reset(c *c13Case) error {
 	s.listener = nil
 	s.manager = nil
 	if c.Listener {
-		u.lst = &Listener{epoch: c.Epoch}
+		u.lst = &Listener{epoch: c.Epoch, state: sessionSateType(c.LState)}
 		s.listener = u.lst
 	}
 	if c.Manager {
@@ -469,7 +472,8 @@ func c13Header(length uint32, magic uint16, version uint8, typ uint8) []byte {
 }
 
 type c13Gen struct {
-	r *vrand
+	r            *vrand
+	hsCorpusDone int
 }
 
 func (g *c13Gen) bytes(n int) []byte {
@@ -613,8 +617,40 @@ func (g *c13Gen) cuts(n int) []int {
 	}
 }
 
+// the witnesses of Props/C13.v (C13_witness_*), run first in every run
+func c13Corpus(id int) *c13Case {
+	ep := []byte{0, 0, 0, 0, 0, 0, 0, 7}
+	c := &c13Case{ID: id, Kind: "ev", Epoch: 7, LState: int(hotRestartState), SState: int(hotRestartState)}
+	var data []byte
+	switch id {
+	case 0:
+		c.Class, c.Listener = "corpus:fallback-length-0", true
+		data = c13Header(0, magicNumber, 2, uint8(typeFallbackData))
+	case 1:
+		c.Class, c.Listener = "corpus:fallback-length-12", true
+		data = append(c13Header(12, magicNumber, 2, uint8(typeFallbackData)), 0, 0, 0, 1)
+	case 2:
+		c.Class, c.Client, c.Manager = "corpus:ack-without-listener", true, true
+		data = append(c13Header(16, magicNumber, 2, uint8(typeHotRestartAck)), ep...)
+	case 3:
+		c.Class, c.Listener = "corpus:restart-without-manager", true
+		data = append(c13Header(16, magicNumber, 2, uint8(typeHotRestart)), ep...)
+	default:
+		return nil
+	}
+	c.Bytes = hex.EncodeToString(data)
+	c.Cuts = [][]int{{len(data)}, {8, len(data) - 8}, {3, len(data) - 3}, {len(data) - 1, 1}}
+	if len(data) == 8 {
+		c.Cuts = [][]int{{8}, {7, 1}, {1, 7}, {4, 4}}
+	}
+	return c
+}
+
 func (g *c13Gen) evCase(id int) *c13Case {
 	r := g.r
+	if c := c13Corpus(id); c != nil {
+		return c
+	}
 	c := &c13Case{ID: id, Kind: "ev"}
 	switch k := r.intn(10); {
 	case k < 5:
@@ -630,6 +666,8 @@ func (g *c13Gen) evCase(id int) *c13Case {
 	if r.chance(30) {
 		c.Epoch = uint64(r.intn(4))
 	}
+	c.LState = r.pick([]int{int(hotRestartState), int(hotRestartState), int(hotRestartState), int(defaultState)})
+	c.SState = r.pick([]int{int(hotRestartState), int(hotRestartState), int(hotRestartState), int(defaultState), int(hotRestartDoneState)})
 	// streams already known to the session
 	used := map[uint32]bool{}
 	for i, n := 0, r.intn(4); i < n; i++ {
@@ -864,6 +902,16 @@ func (g *c13Gen) metaCase(id int) *c13Case {
 func (g *c13Gen) hsCase(id int) *c13Case {
 	r := g.r
 	c := &c13Case{ID: id, Kind: "hs"}
+	if g.hsCorpusDone < 2 { // C13_regression_short_metadata, C13_regression_length_below_header
+		c.Class = "corpus:hs-empty-metadata"
+		c.Bytes = hex.EncodeToString(c13Header(headerSize, magicNumber, 2, uint8(typeShareMemoryByFilePath)))
+		if g.hsCorpusDone == 1 {
+			c.Class = "corpus:hs-length-below-header"
+			c.Bytes = hex.EncodeToString(c13Header(3, magicNumber, 2, uint8(typeShareMemoryByFilePath)))
+		}
+		g.hsCorpusDone++
+		return c
+	}
 	mc := g.metaCase(0)
 	body, _ := hex.DecodeString(mc.Bytes)
 	v3 := r.chance(60)
@@ -902,6 +950,9 @@ func (g *c13Gen) hsCase(id int) *c13Case {
 			data[7] = uint8(r.pick([]int{0, 1, 5, 6, 10}))
 			c.Class = "hs:first-type"
 		}
+	case 6: // Length below headerSize: Length - headerSize would wrap in uint32
+		binary.BigEndian.PutUint32(hdr[0:4], uint32(r.intn(headerSize)))
+		c.Class = "hs:length-below-header"
 	}
 	data = append(append(data, hdr...), body...)
 	if r.chance(8) {
@@ -912,7 +963,6 @@ func (g *c13Gen) hsCase(id int) *c13Case {
 		data = g.bytes(r.intn(30))
 		c.Class = "hs:random"
 	}
-	// never ask the library for a 4 GiB body (Length < headerSize wraps in uint32): keep the harness cheap
 	c.Bytes = hex.EncodeToString(data)
 	return c
 }
@@ -931,16 +981,21 @@ func c13RunMeta(c *c13Case) {
 				c.Oracle = append(c.Oracle, c13Fail{"C13: panic " + class + " in " + fn, "panic on handshake metadata: " + fmt.Sprint(r)})
 			}
 		}()
-		bp, qp := s.extractShmMetadata(b)
+		bp, qp, err := s.extractShmMetadata(b)
+		if err != nil {
+			c.MetaErr = true
+			return
+		}
 		c.MetaQ, c.MetaB = hex.EncodeToString([]byte(qp)), hex.EncodeToString([]byte(bp))
 	}()
 }
 
-// would the library allocate an absurd body for this input?  (uint32 wrap of Length - headerSize)
+// would the library allocate a very large body for this input?  (a Length below headerSize is rejected by the
+// library and is run; a huge Length is a legitimate request for a huge body and is skipped to keep the harness cheap)
 func c13HsTooBig(data []byte) bool {
 	for off := 0; off+8 <= len(data) && off <= 8; off += 8 {
 		l := binary.BigEndian.Uint32(data[off : off+4])
-		if l-headerSize > 1<<22 {
+		if l >= headerSize && l-headerSize > 1<<22 {
 			return true
 		}
 	}
